@@ -74,7 +74,7 @@ def writer_states(calls, split):
         for ci in sess:
             groups = set(st[1])
             for o in calls[ci]:
-                if o[0] in ('G', 'C', 'C*'):
+                if o[0] in ('G', 'C', 'C*', 'C@'):
                     groups.add(o[1])
             st = (True, frozenset(groups))
             out.add(repr((st[0], sorted(st[1]))))
@@ -99,7 +99,7 @@ def _worker(item):
                         oc, why = check_program(calls, assign, split, version, dest, index)
                         res['counters']['programs'] += 1
                         res['outcomes'][oc] = res['outcomes'].get(oc, 0) + 1
-                        if oc in ('valid', 'invalid') and any(o[0] in ('C', 'C*') for c in calls for o in c):
+                        if oc in ('valid', 'invalid') and any(o[0] in ('C', 'C*', 'C@') for c in calls for o in c):
                             res['counters']['nontrivial'] += 1
                         if index:
                             res['counters']['with_index'] += 1
@@ -107,7 +107,7 @@ def _worker(item):
                             k_ = 'accepted_shape_%d' % seq[0]
                             res['counters'][k_] = res['counters'].get(k_, 0) + 1
                         if why is not None and len(res['violations']) < 25:
-                            kinds = sorted(set(assign[o[3]] for c in calls for o in c if o[0] in ('C', 'C*')))
+                            kinds = sorted(set(assign[o[3]] for c in calls for o in c if o[0] in ('C', 'C*', 'C@')))
                             res['violations'].append({
                                 'case': {'seq': list(seq), 'assign': list(assign), 'split': split, 'version': version,
                                          'dest': dest, 'index': index},
